@@ -23,6 +23,8 @@ func encS(s string) string {
 	s = strings.ReplaceAll(s, "%", "%25")
 	s = strings.ReplaceAll(s, " ", "%20")
 	s = strings.ReplaceAll(s, "~", "%7E")
+	s = strings.ReplaceAll(s, "\n", "%0A")
+	s = strings.ReplaceAll(s, "\t", "%09")
 	return s
 }
 
@@ -65,7 +67,37 @@ func npSnapshot(ctx sdk.Context, k govkeeper.Keeper) map[int]string {
 
 var npU64Cands = []uint64{0, 1, 2, 3, 100, 99999, 604799, 604800, 604801, 2629799, 2629800, 2629801, 31557600, 31557601, 1 << 32, 1<<63 - 1, 1 << 63, 1<<64 - 1}
 var npDecCands = []string{"0", "1", "0.5", "0.500000000000000001", "0.499999999999999999", "1.000000000000000001", "-0.1", "-0", "0.333333333333333333", "0.333333333333333334", "0.33", "abc", "", "1.", ".5", "--1", "+1", "+0.25", "1.0000000000000000001", "1e3", "0.1.2", "2", "0.05", "00.10", "1_0", "0.-5", "١"}
-var npStrCands = []string{"moniker,username", "moniker", "username", "Moniker,username", "moniker,username,foo", "moniker,,username", "moniker,1bad", "", "moniker,username,contact", "moniker,user_name9", "moniker,user-name", "moniker, username"}
+// c19KeysBad: the validity rule of unique_identity_keys, written down independently of the implementation's helper
+// functions: a comma-separated list of lower-case identity keys (a letter, then letters, digits and underscores - the
+// whole key), naming "moniker"
+func c19KeysBad(ks string) string {
+	if ks == "" {
+		return "empty"
+	}
+	hasMoniker := false
+	for _, key := range strings.Split(ks, ",") {
+		if key == "" {
+			return "an empty key"
+		}
+		for i, c := range key {
+			letter := c >= 'a' && c <= 'z'
+			if !(letter || (i > 0 && (c == '_' || (c >= '0' && c <= '9')))) {
+				return fmt.Sprintf("key %q has the character %q at position %d", key, c, i)
+			}
+		}
+		hasMoniker = hasMoniker || key == "moniker"
+	}
+	if !hasMoniker {
+		return "moniker missing"
+	}
+	return ""
+}
+
+var npKeyTails = []string{"user-name", "e mail", "nick.name", "key\n", "k9_", "_abc", "a-", "a\tb", "caf\u00e9", "x", "1x", "good_key"}
+
+var npStrCands = []string{"moniker,username", "moniker", "username", "Moniker,username", "moniker,username,foo", "moniker,,username", "moniker,1bad", "", "moniker,username,contact", "moniker,user_name9", "moniker,user-name", "moniker, username",
+	// the old keys kept, one more key that is well-formed only up to some character (or not at all)
+	"moniker,username,user-name", "moniker,username,e mail", "moniker,username,nick.name", "moniker,username,key\n", "moniker,username,k9_", "moniker,username,_abc", "moniker,username,a-", "moniker,username,a\tb", "moniker,username,caf\u00e9"}
 
 func runC19(r *Rec) {
 	defer func() { c19Genesis(r, NewWorld(WorldOpts{NAcc: 2, NVal: 1, SudoAccs: []int{0}})) }()
@@ -207,6 +239,9 @@ func runC19(r *Rec) {
 			if want != "" && after[id] != want {
 				r.Fail("C19/set/read-back", fmt.Sprintf("set id=%d to (%d,%q) reads back %s, want %s", id, val, sv, after[id], want), []string{line})
 			}
+			if bad := c19KeysBad(k.GetNetworkProperties(ctx).UniqueIdentityKeys); bad != "" {
+				r.Fail("C19/set/stored-unique-keys-malformed", fmt.Sprintf("after set id=%d the stored unique_identity_keys %q are not valid: %s", id, k.GetNetworkProperties(ctx).UniqueIdentityKeys, bad), []string{line})
+			}
 			if verr := k.ValidateNetworkProperties(ctx, k.GetNetworkProperties(ctx)); verr != nil {
 				r.Fail("C19/set/stored-invalid", fmt.Sprintf("after set id=%d stored record invalid: %v", id, verr), []string{line})
 			}
@@ -231,6 +266,11 @@ func runC19(r *Rec) {
 			case "str":
 				for _, s := range npStrCands {
 					doSet(id, 0, s, path)
+				}
+				// the keys on record kept, one more key that is well-formed only up to some character
+				for _, tail := range npKeyTails {
+					cur, _ := k.GetNetworkProperty(ctx, govtypes.NetworkProperty(id))
+					doSet(id, 0, cur.StrValue+","+tail, path)
 				}
 			}
 		}
@@ -279,7 +319,12 @@ func runC19(r *Rec) {
 			}
 			doSet(id, 0, s, path)
 		case "str":
-			doSet(id, 0, npStrCands[r.Rng.Intn(len(npStrCands))], path)
+			if r.Rng.Intn(3) == 0 {
+				cur, _ := k.GetNetworkProperty(ctx, govtypes.NetworkProperty(id))
+				doSet(id, 0, cur.StrValue+","+npKeyTails[r.Rng.Intn(len(npKeyTails))], path)
+			} else {
+				doSet(id, 0, npStrCands[r.Rng.Intn(len(npStrCands))], path)
+			}
 		}
 	}
 
